@@ -5,7 +5,7 @@ from .. import core, gen, impl_thr, scen
 from . import c01
 
 ID = "C03"
-BUDGET = {"quick": 600, "thorough": 60000}
+BUDGET = {"quick": 2400, "thorough": 300000}
 RULE = ("scenario = scheduler (naive/any offset) with 1-3 cyclic jobs (interval 0..weeks with us resolution; start past/"
         "present/future in its own offset or creation time; delay=False in 25%) and one-shots of all four kinds "
         "(datetime, timedelta, clock time, weekday trigger); 1-8 polls exactly on / next to / many intervals after a due "
